@@ -1095,6 +1095,30 @@ class SymFraction:
         self.v = v
 
 
+class RatObj(Fraction):
+    """A concrete fractions.Fraction OBJECT of the program (the engine also uses plain Fraction for float values: the two print differently).
+    Closed under arithmetic with ints and other RatObj; mixed with a float value (plain Fraction) the result is a float, as in Python."""
+
+    def _wrap(self, other, r):
+        if r is NotImplemented:
+            return r
+        if isinstance(other, RatObj) or (isinstance(other, int) and not isinstance(other, bool)):
+            return RatObj(r)
+        return r
+
+    def __add__(self, o): return self._wrap(o, Fraction.__add__(self, o))
+    def __radd__(self, o): return self._wrap(o, Fraction.__radd__(self, o))
+    def __sub__(self, o): return self._wrap(o, Fraction.__sub__(self, o))
+    def __rsub__(self, o): return self._wrap(o, Fraction.__rsub__(self, o))
+    def __mul__(self, o): return self._wrap(o, Fraction.__mul__(self, o))
+    def __rmul__(self, o): return self._wrap(o, Fraction.__rmul__(self, o))
+    def __truediv__(self, o): return self._wrap(o, Fraction.__truediv__(self, o))
+    def __mod__(self, o): return self._wrap(o, Fraction.__mod__(self, o))
+    def __neg__(self): return RatObj(Fraction.__neg__(self))
+    def __abs__(self): return RatObj(Fraction.__abs__(self))
+    def limit_denominator(self, n=1000000): return RatObj(Fraction.limit_denominator(self, n))
+
+
 @model("fractions.Fraction")
 def _fraction(I, a=0, b=None):
     from .strings import SStr, parse_fraction
@@ -1110,12 +1134,12 @@ def _fraction(I, a=0, b=None):
         a = num_binop("/", to_real(a), to_real(b))
     if is_sym(a):
         return SymFraction(a)
-    return Fraction(to_frac(a))
+    return RatObj(to_frac(a))
 
 
-@model("Fraction.limit_denominator")
+@model("Fraction.limit_denominator", "RatObj.limit_denominator")
 def _limit_den(I, f, n=1000000):
-    return Fraction(f).limit_denominator(n)
+    return RatObj(Fraction(f).limit_denominator(n))
 
 
 @model("SymFraction.limit_denominator")
